@@ -194,7 +194,7 @@ func MakeTime(hour, min, sec, ms float64) float64 {
 // yearLimit bounds the years for which MakeDay looks for a time value; beyond
 // it every result is far outside the time-value range and is NaN after TimeClip
 // in all compositions (step 7 of MakeDay permits NaN there).
-const yearLimit = 400000000
+const yearLimit = 100000000
 
 // MakeDay is 15.9.1.12.
 func MakeDay(year, month, date float64) float64 {
